@@ -146,6 +146,9 @@ def s3_docs(tier):
     # display:none on the use target itself and on a group level
     yield ("S3", "target-hidden", ()), doc('<use xlink:href="#h" x="5"/><rect x="10" y="10" width="20" height="20" fill="red"/>', '<rect id="h" width="30" height="30" fill="blue" display="none"/>')
     yield ("S3", "defs-hidden-ancestor", ()), doc('<use xlink:href="#h2" x="5"/>', '<g display="none"><rect id="h2" x="20" y="20" width="30" height="30" fill="blue"/></g>')
+    yield ("S3", "use-cancels-target-translate", ()), doc('<use xlink:href="#c1" x="-60" y="-10"/><rect x="10" y="40" width="20" height="20" fill="green"/>', '<rect id="c1" x="70" y="20" width="25" height="20" fill="red" transform="translate(60 10)"/>')
+    yield ("S3", "use-cancels-target-scale", ()), doc('<use xlink:href="#c2" transform="scale(0.5)"/><rect x="10" y="40" width="20" height="20" fill="green"/>', '<g id="c2" transform="scale(2)"><rect x="10" y="10" width="25" height="20" fill="red"/></g>')
+    yield ("S3", "g-cancels-child", ()), doc('<g transform="translate(-30,-20)"><circle cx="50" cy="50" r="15" fill="blue" transform="translate(30,20)"/></g>')
     yield ("S3", "style-hidden", ()), doc('<g style="display:none"><rect x="10" y="10" width="50" height="50" fill="red"/></g><circle cx="40" cy="40" r="15" fill="green"/>')
 
 
@@ -182,6 +185,15 @@ def s4_docs(tier):
         if ov:
             attrs += f' overflow="{ov}"'
         yield ("S4", (x, y, w, h), str(vb), par, ov), doc(f'<rect x="5" y="5" width="90" height="90" fill="yellow"/><svg{attrs}>{content}</svg>')
+    # sibling viewports (each needs its own clip), also inside a group and next to a nested pair
+    sib = lambda x, c, ov="": f'<svg x="{x}" y="10" width="30" height="40" viewBox="0 0 20 20"{ov}><rect x="-5" y="5" width="30" height="8" fill="{c}"/></svg>'
+    yield ("S4", "siblings2"), doc(sib(5, "red") + sib(45, "blue"))
+    yield ("S4", "siblings3"), doc(sib(5, "red") + sib(35, "blue", ' overflow="visible"') + sib(65, "green"))
+    yield ("S4", "siblings-in-g"), doc(f'<g transform="translate(0,30)">{sib(5, "red")}{sib(45, "blue")}</g>' + sib(25, "green"))
+    yield ("S4", "siblings-nested"), doc(f'<svg x="0" y="0" width="100" height="60" viewBox="0 0 100 60">{sib(5, "red")}{sib(45, "blue")}</svg>' + sib(60, "green"))
+    # inner svg without width/height inside a nested svg whose viewBox differs from its viewport
+    for par in ("xMidYMid meet", "none", "xMinYMax slice"):
+        yield ("S4", "inner-default-size", par), doc(f'<svg x="10" y="5" width="80" height="45" viewBox="0 0 40 30" preserveAspectRatio="{par}"><rect width="40" height="30" fill="yellow"/><svg x="4" y="3" viewBox="0 0 10 10" preserveAspectRatio="xMaxYMin meet"><rect x="-2" y="2" width="14" height="5" fill="red"/><circle cx="9" cy="9" r="3" fill="blue"/></svg></svg>')
     if tier == "thorough":
         # two levels of nesting
         for par1, par2, ov in itertools.product(["xMinYMid slice", "xMaxYMin meet", "none"], ["xMidYMax meet", "xMinYMin slice"], (None, "visible")):
